@@ -253,6 +253,14 @@ impl Check for C16 {
         if c.zooms {
             argv.extend([s("--zooms"), s("10,40")]);
         }
+        // half of the configurations write over existing, longer files (a stale tail left behind an
+        // output that is not truncated shows as trailing garbage / extra lines)
+        let over_existing = (c.threads + c.input + c.block_size as usize) % 2 == 0;
+        let stale_text: String = "stale\t1\t2\tleft over from an earlier run\n".repeat(4000);
+        if over_existing {
+            std::fs::write(dir.join("out.bb"), vec![0xABu8; 300_000]).unwrap();
+            out.count("outputs_written_over_existing_longer_files", 1);
+        }
         let r = run_in_stdin(dir, &argv, if c.stdin { Some("in.txt") } else { None });
         out.count("process_runs", 1);
         if c.stdin {
@@ -291,6 +299,9 @@ impl Check for C16 {
             a.extend([s("out.bb"), format!("back{}.txt", bt), s("-t"), bt.to_string()]);
             if inmem {
                 a.push(s("--inmemory"));
+            }
+            if over_existing {
+                std::fs::write(dir.join(format!("back{}.txt", bt)), &stale_text).unwrap();
             }
             let r = run_in(dir, &a);
             out.count("process_runs", 1);
@@ -355,6 +366,9 @@ impl Check for C16 {
                 if let Some(x) = en {
                     a.extend([s("--end"), x.to_string()]);
                 }
+            }
+            if over_existing {
+                std::fs::write(dir.join(format!("r{}.txt", ri)), &stale_text).unwrap();
             }
             let r = run_in(dir, &a);
             out.count("process_runs", 1);
@@ -438,6 +452,9 @@ impl Check for C16 {
                 a.push(s("-bed=regions.bed"));
             } else {
                 a.extend([s("--overlap-bed"), s("regions.bed")]);
+            }
+            if over_existing {
+                std::fs::write(dir.join("ob.txt"), &stale_text).unwrap();
             }
             let r = run_in(dir, &a);
             out.count("process_runs", 1);
@@ -645,6 +662,16 @@ pub fn c15_tool(t: &MergeTool, out: &mut Outcome) {
         tags.push(s("explicit_output_type"));
     }
     argv.push(t.output.clone());
+    // every other run writes over an existing, longer file of the same name
+    if (t.inputs.len() + t.input_style as usize + t.output.len()) % 2 == 0 {
+        let bedgraph_out = t.output.to_lowercase().ends_with("bedgraph") || t.output_type.as_deref() == Some("bedgraph");
+        if bedgraph_out {
+            std::fs::write(dir.join(&t.output), "chrStale\t0\t1\t9\n".repeat(20000)).unwrap();
+        } else {
+            std::fs::write(dir.join(&t.output), vec![0xABu8; 300_000]).unwrap();
+        }
+        out.count("tool_merge_runs_over_existing_longer_output", 1);
+    }
     let r = run_in(dir, &argv);
     out.count("tool_merge_runs", 1);
     out.count(&format!("tool_merge_runs_input_style_{}", t.input_style), 1);
